@@ -4,6 +4,8 @@ import (
 	"strconv"
 	"strings"
 	"unicode/utf8"
+
+	"gopkg.in/yaml.v3"
 )
 
 //go:generate go run ./scripts/generate-availability ./availability.go
@@ -573,8 +575,14 @@ func (rule *RuleExpression) checkWorkflowCall(c *WorkflowCall) {
 			case "true", "false":
 				ty = BoolType{}
 			default:
-				if _, err := strconv.ParseFloat(v, 64); err == nil {
-					ty = NumberType{}
+				// Read the value as YAML does. strconv.ParseFloat also accepts texts which are strings
+				// in YAML (nan, inf, Infinity) and rejects integers like 0x10
+				var y interface{}
+				if err := yaml.Unmarshal([]byte(v), &y); err == nil {
+					switch y.(type) {
+					case int, int64, uint64, float64:
+						ty = NumberType{}
+					}
 				}
 			}
 		case 1:
